@@ -53,6 +53,23 @@ Theorem C18_polygon_spans_its_load : forall u ds b l x0 x1 y0 y1,
 Proof. exact polygon_spans. Qed.
 Print Assumptions C18_polygon_spans_its_load.
 
+(* the loads of a bar are drawn in a group of their own, one per loaded bar, put at the bar's scaled start point and turned
+   along the bar (compared with the rotate(...) of the written SVG by stage S) ... *)
+Theorem C18_one_turned_group_per_loaded_bar : forall p,
+  let u := units_scale (pl_bars p) in
+  sel is_loadgroup (plot_events p) = flat_map (fun b => if pb_has_loads b then [load_group_of u b] else []) (pl_bars p).
+Proof. exact one_turned_group_per_loaded_bar. Qed.
+Print Assumptions C18_one_turned_group_per_loaded_bar.
+
+(* ... so that the polygon vertex drawn at local (x, 0), x = u * length * t, is the scaled point of the bar at position t *)
+Theorem C18_load_group_lies_along_the_bar : forall (u : Q) (b : pbar_in) (t : Q), ~ (pb_len b == 0)%Q ->
+  let c := ((pb_x2 b - pb_x1 b) / pb_len b)%Q in let s := ((pb_y2 b - pb_y1 b) / pb_len b)%Q in
+  let x := (u * (pb_len b * t))%Q in
+  (pb_x1 b * u + c * x == u * (pb_x1 b + t * (pb_x2 b - pb_x1 b)))%Q /\
+  (pb_y1 b * u + s * x == u * (pb_y1 b + t * (pb_y2 b - pb_y1 b)))%Q.
+Proof. exact load_group_lies_along_the_bar. Qed.
+Print Assumptions C18_load_group_lies_along_the_bar.
+
 (* light and dark themes: same keys, and every setting that is not a colour has the same value *)
 Theorem C18_themes_differ_only_in_colours :
   forallb (fun k => match assoc k c_plot_theme_light, assoc k c_plot_theme_dark with
